@@ -1409,7 +1409,13 @@ def rule_N7(ctx):
     for q, attr, f_s in (("Image.make_safe_names_routine", "_safe_name", "self.make_safe_name"), ("Image.make_export_names_routine", "_export_name", "self.make_export_name")):
         r = ctx.fn(ST, q, "N7")
         c = [x for x in own_nodes(r) if isinstance(x, ast.Call) and norm(x.func) == "self.sanitize_names_general"]
-        ok = len(c) == 1 and norm(c[0].args[0]) == r.args.args[1].arg and norm(c[0].args[1]) == f_s and f"setattr(element, '{attr}', name)" in norm(c[0].args[2])
+        ok = len(c) == 1
+        if ok:
+            # canonical call term: keyword / positional spellings agree, the setter is a two-parameter lambda (written in place or
+            # produced by a folded factory) storing its second argument in the attribute of its first
+            from .util import evaluator as _evq, call_parts as _cpq2
+            fn_, pos_, kw_ = _cpq2(_evq(ctx, r, {}).ev(c[0]).key())
+            ok = not kw_ and len(pos_) == 3 and pos_[0] == r.args.args[1].arg and pos_[1] == f_s and pos_[2] == f"lambda:setattr(this,'{attr}',ctx)"
         ctx.ob("N7", r, f"{q} stores {attr} computed by {f_s}", ok, "", inst=q)
 
 
